@@ -265,7 +265,8 @@ def fallback_to_fast(ctx, rule='A9f'):
     fast_built = False
     for h in t.handlers:
         names = handler_type_names(h)
-        builds = any(isinstance(s, ast.Assign) and 'SelChoiceEncoderType.FAST' in norm(s.value) and
+        builds = any(isinstance(s, (ast.Assign, ast.Return)) and s.value is not None and
+                     'SelChoiceEncoderType.FAST' in norm(s.value) and
                      'encoders' in norm(s.value) for b in h.body for s in ast.walk(b))
         if builds:
             fast_built = True
